@@ -211,7 +211,9 @@ func (c *compactJob) installCompactionResults() {
 // makeInputIterator makes a merged iterator by compaction pick input files
 func (c *compactJob) makeInputIterator() (table.Iterator, error) {
 	var its []table.Iterator
-	for which := 0; which < 2; which++ {
+	// NOTE: oldest data first(up level files, then the files of the level), the merged iterator keeps this order
+	// for the values of one key, mergers apply them in write order.
+	for which := 1; which >= 0; which-- {
 		files := c.state.compaction.GetInputs()[which]
 		if len(files) > 0 {
 			for _, fileMeta := range files {
